@@ -50,6 +50,11 @@ def alphabet(tier):
         if_(CMP("<", V("a"), V("b"))),
         if_(["and", [CMP(">", V("<state>y"), C(0)), CMP("<", V("n"), C(3))]]),
         assign("arr", V("b"), loops=[["i", V("n"), V("m")]]),
+        # vector-valued right-hand sides: numpy object arrays holding numbers and expressions
+        assign("a", ["nparr", [C(0), V("b"), ["prod", [C(2), V("n")]]]]),
+        assign("a", ["nparr", [S(C(1), V("b")), S(C(2), V("b")), S(V("m"), V("b"))]]),
+        acall(["a"], "<func>f", [["nparr", [C(0), V("<p>q")]]]),
+        yield_(["nparr", [C(0), V("a"), V("<state>y")]]),
         # implicit solves (declared sets only: no back end executes them): unknown with a name of its own, and an unknown
         # that shares its name with the variable used as initial guess
         gen.implicit(["a"], ["u"], [S(["prod", [V("u"), V("u")]], ["prod", [C(-1), V("b")]])], [["guess", V("n")]]),
